@@ -271,6 +271,56 @@ def ho_pattern(r, g):
     return pat, t, 'heuristic'
 
 
+def nested_binder_case(r):
+    """Two or three nested binders of one type whose names coincide or are variants of each other
+    (x / x, x / x1, ...); the target's inner body mentions an outer bound variable where the
+    pattern's has the inner one, a schematic variable, or the same outer one."""
+    A = natT
+    q = Var('q', TFun(A, A, A))
+    depth = r.choice([2, 2, 2, 3])
+    pnames = r.choice([('x', 'x', 'x'), ('x', 'x1', 'x2'), ('x', 'x1', 'x'), ('y', 'y', 'y1'), ('x1', 'x', 'x'), ('x', 'y', 'z')])[:depth]
+    tnames = r.choice([('u', 'v', 'w'), ('x', 'y', 'z'), ('x', 'x', 'x'), ('x1', 'x', 'x2')])[:depth]
+    sv = [SVar('a', A), SVar('b', A)]
+
+    def leafp():
+        c = r.random()
+        if c < 0.45:
+            return Bound(0)
+        if c < 0.8:
+            return r.choice(sv)
+        if c < 0.9 and depth >= 2:
+            return Bound(r.randrange(depth))
+        return Var('c', A)
+    shape = r.choice([0, 1, 1, 2])
+    if shape == 0:
+        pb = leafp()
+    elif shape == 1:
+        pb = q(leafp(), leafp())
+    else:
+        pb = q(q(leafp(), leafp()), leafp())
+    honest = r.random() < 0.35
+    sinst = {v.name: r.choice([Var('x', A), Var('x1', A), Var('c', A)]) for v in sv}
+
+    def tgt(u):
+        if u.is_svar():
+            if honest or r.random() < 0.6:
+                return sinst[u.name]
+            return Bound(r.randrange(depth))
+        if u.is_bound():
+            if honest or r.random() < 0.4:
+                return u
+            return Bound(r.randrange(depth))
+        if u.is_comb():
+            return Comb(tgt(u.fun), tgt(u.arg))
+        return u
+    tb = tgt(pb)
+    pat, t = pb, tb
+    for k in reversed(range(depth)):
+        pat = Abs(pnames[k], A, pat)
+        t = Abs(tnames[k], A, t)
+    return pat, t, ('nested-binders-instance' if honest else 'nested-binders'), sinst
+
+
 def run_check(tier, seed):
     run = Run(PROP, 'proof', tier, seed)
     proof_stage(run, PROP)
@@ -280,12 +330,18 @@ def run_check(tier, seed):
     n = 400 if tier == 'quick' else 5000
     exprs, meta, feqs = [], [], []
 
-    for i in range(n):
+    n_nested = 150 if tier == 'quick' else 2500
+    for i in range(n + n_nested):
         T = g.rand_type()
         p = fo_pattern(r, g, T, r.choice([1, 2, 3]))
         c = r.random()
         true_inst = None
-        if c < 0.6:
+        if i >= n:
+            p, t, kind, sinst = nested_binder_case(r)
+            if kind == 'nested-binders-instance':
+                true_inst = Inst(**{k: v for k, v in sinst.items() if any(w.name == k for w in p.get_svars())})
+                kind = 'instance'
+        elif c < 0.6:
             t, true_inst = instantiate(p, r, g)
             kind = 'instance'
             if t is None:
